@@ -1,12 +1,94 @@
 /-
-  Model of the gso solver (history-free answers).  STUB: to be replaced by the real model.
+  Model of `AdjGSO<double,int,Exception::matvec>` (lib/gnu_gama/adj/adj_gso.h, non-legacy
+  branch: ICGS) — history-free answers of a fresh object.
+
+  `AdjGSO::solve`: block matrix `[A -b; I 0]` stored by columns (column c ≤ N: rows 1..M = A(·,c),
+  rows M+1..M+N = unit vector e_c; column N+1: −b, then zeros), `icgs.reset(data, M, N, N, 1)`,
+  `icgs1()`, `icgs2()`, x = rows M+1..M+N of column N+1, r = rows 1..M of column N+1.
+  `q_xx(i,j) = rowdot(M+i, M+j)`, `q_bb(i,j) = rowdot(i,j)`, `q_bx(i,j) = rowdot(i, M+j)`,
+  `defect() = lindep.size()`, `lindep(i) = i ∈ lindep` (both solve first since 09cba0d),
+  `sum_of_squares() = r.dot(r)` (AdjBaseFull), `q0_xx = q_xx`, `cond() = 0` (AdjBase defaults).
+  Regularisation: `ICGS::min_x()` (all; also the default of a fresh object) or
+  `min_x(n, list)` (a `std::set<int>`).
+
+  The C++ performs no index checks: a regularisation index outside 1..N (used only when the
+  defect is positive) or a cofactor index outside its range reads outside the array; the model
+  answers `NotModelled` there.
+
+  `gsoSolveWith refuse`: `refuse = false` is the code as it is (ICGS::error() is never read:
+  finding F6); `refuse = true` models the proposed repair
+  (notes/proposed/C02-gso-bad-regularization.diff): `solve()` throws `BadRegularization`
+  when `icgs.error() != 0`.
+
+  Core Lean only.
 -/
 import Gama.Model.Ls.Common
+import Gama.Model.Ls.Gso.Icgs
 namespace Gama.Ls
+open Gama
+
+namespace Gso
 variable {K : Type} [Scalar K]
 
-/-- answers of a fresh solver object of this algorithm on problem `p` (solver-level entry:
-    sparse solvers take (A, b, C); full solvers take dense A, b with unit covariance) -/
-def gsoSolve : Solver K := fun _ => .error .NotModelled
+/-- `std::numeric_limits<double>::epsilon()*1e5` (icgs.h) -/
+def tolerance : K := (1 / Scalar.ofNat (2 ^ 52)) * Scalar.ofNat 100000
+
+/-- the columns 1..N and the column N+1 of `icgs_data` as `AdjGSO::solve` fills it -/
+def augmented (M N : Nat) (a : Nat → Nat → K) (b : Nat → K) : List (Col K) × Col K :=
+  ((List.range N).map fun c =>
+      { top := (List.range M).map fun r => a r c,
+        bot := (List.range N).map fun r => if r = c then 1 else 0 },
+   { top := (List.range M).map fun r => - b r, bot := List.replicate N 0 })
+
+/-- characteristic list of `minx` over the rows 1..N of the lower block -/
+def maskOf (N : Nat) : Reg → List Bool
+  | .subset l => (List.range N).map fun i => l.contains (i + 1)
+  | _ => List.replicate N true
+
+/-- `icgs1(); icgs2();` on the augmented matrix -/
+def run (tol : K) (M N : Nat) (a : Nat → Nat → K) (b : Nat → K) (mask : List Bool) : R2 K :=
+  let (cols, rhs) := augmented M N a b
+  icgs2 tol mask (icgs1 tol cols rhs)
+
+def entry (A : DMat K) (r c : Nat) : K := (A.getD r #[]).getD c 0
+
+def regInRange (N : Nat) : Reg → Bool
+  | .subset l => l.all fun i => 1 ≤ i && i ≤ N
+  | _ => true
+
+end Gso
+
+open Gso in
+def gsoSolveWith {K : Type} [Scalar K] (refuse : Bool) : Solver K := fun p =>
+  let M := p.m
+  let N := p.n
+  let A := p.dense
+  let R := run (tolerance : K) M N (entry A) (fun i => p.rhs.getD i 0) (maskOf N p.reg)
+  if !R.dep.isEmpty && !regInRange N p.reg then .error .NotModelled
+  else if refuse && R.err != 0 then .error .BadRegularization
+  else
+    let q (lo hi : Nat) (f g : Nat → Col K → K) (i j : Nat) : Except ErrKind K :=
+      if 1 ≤ i ∧ i ≤ lo ∧ 1 ≤ j ∧ j ≤ hi then .ok (rowdot R.cols (f (i - 1)) (g (j - 1)))
+      else .error .NotModelled
+    let t (i : Nat) (c : Col K) : K := c.top.getD i 0
+    let u (i : Nat) (c : Col K) : K := c.bot.getD i 0
+    .ok { x := R.rhs.bot.toArray
+          r := R.rhs.top.toArray
+          rtr := dot R.rhs.top R.rhs.top
+          defect := R.dep.length
+          qxx := q N N u u
+          q0xx := q N N u u
+          qbb := q M M t t
+          qbx := q M N t u
+          lindep := fun i => .ok (R.dep.contains i)
+          cond := .ok 0 }
+
+variable {K : Type} [Scalar K]
+
+/-- answers of a fresh `AdjGSO` object on problem `p` (dense A, b, unit covariance) -/
+def gsoSolve : Solver K := gsoSolveWith false
+
+/-- the same with the repair of F6 applied (`solve()` refuses when `icgs.error() != 0`) -/
+def gsoSolveFixed : Solver K := gsoSolveWith true
 
 end Gama.Ls
